@@ -6,14 +6,14 @@ use crate::model::{Kind, Lid, MNode, Model, Nm};
 use crate::rng::Rng;
 use serde::{Deserialize, Serialize};
 
-pub const LOCALS: [&str; 8] = ["a", "b", "c", "d", "e", "f", "A", "id"];
+pub const LOCALS: [&str; 9] = ["a", "b", "c", "d", "e", "f", "A", "id", "\u{e9}l"];
 pub const URIS: [&str; 4] = ["urn:x", "urn:y", "urn:z", "urn:w?a=1&b=\"2\""];
 pub const PREFIXES: [&str; 3] = ["p", "q", "r"];
 pub const TEXTS: [&str; 17] = ["a]]]>b", "t", "x y", " ", "hello", "<&>", "é", "a]]>b", "  \n ", "1", "\"q'", "zz", "\u{1F600}", "a\rb", "]]", ">", "a long run of character data, long enough to cross the small-string and buffer sizes that short samples never reach; 0123456789 0123456789 0123456789 0123456789 0123456789 0123456789 <&> \u{1F600} end"];
-pub const ATTR_VALUES: [&str; 10] = ["v", "", "x y", "<&\">", "é", "w'w", "1", "long value here", " a1 ", "first  second"];
-pub const COMMENTS: [&str; 5] = ["c", " note ", "", "a-b", "<x>"];
+pub const ATTR_VALUES: [&str; 13] = ["v", "", "x y", "<&\">", "é", "w'w", "1", "long value here", " a1 ", "first  second", "a\tb", "l1\nl2", "cr\rx"];
+pub const COMMENTS: [&str; 6] = ["c", " note ", "", "a-b", "<x>", "\u{e9} \u{1F600}"];
 pub const XML_NS: &str = "http://www.w3.org/XML/1998/namespace";
-pub const PI_TARGETS: [&str; 3] = ["pi", "target", "x-y"];
+pub const PI_TARGETS: [&str; 4] = ["pi", "target", "x-y", "\u{3c0}"];
 pub const PI_DATA: [&str; 4] = ["d", "a b", "x=\"1\"", "?"];
 
 #[derive(Clone, Debug, PartialEq, Eq, Serialize, Deserialize)]
@@ -212,7 +212,9 @@ pub fn gen_elem(rng: &mut Rng, cfg: &GenCfg, scope: &Scope, depth: usize, ids: &
                 apfx = p.clone();
             }
         }
-        let an = Nm { local: rng.pick(&LOCALS).to_string(), uri: auri };
+        // (an attribute called xmlns in a namespace - written p:xmlns - is an ordinary attribute)
+        let alocal = if !auri.is_empty() && rng.pct(4) { "xmlns".to_string() } else { rng.pick(&LOCALS).to_string() };
+        let an = Nm { local: alocal, uri: auri };
         if attrs.iter().any(|(n, _, _)| *n == an) {
             continue;
         }
